@@ -36,7 +36,7 @@ func exprString(e ast.Expr) string { return types.ExprString(e) }
 
 // insignificant call prefixes (logging, formatting, pure conversions)
 func significantCall(name string) bool {
-	for _, p := range []string{"log.", "m.log.", "zap.", "fmt.", "errors.", "append", "len", "make", "new", "time.", "panic"} {
+	for _, p := range []string{"log.", "m.log.", "zap.", "fmt.", "errors.", "append", "len", "make", "new", "time.", "panic", "string", "[]byte"} {
 		if name == strings.TrimSuffix(p, ".") || strings.HasPrefix(name, p) {
 			return false
 		}
@@ -45,9 +45,34 @@ func significantCall(name string) bool {
 }
 
 type skelWalker struct {
+	self    string // name of the receiver variable ("m" for the manager)
 	params  map[string]bool
 	imports map[string]bool
 	toks    []string
+}
+
+// normSel prints a selector/index chain rooted at the receiver with the index expressions elided
+// (`db.puts[bucket][string(key)]` -> "db.puts[][]"); ok is false for anything else.
+func (w *skelWalker) normSel(e ast.Expr) (string, bool) {
+	switch x := e.(type) {
+	case *ast.Ident:
+		if x.Name == w.self {
+			return x.Name, true
+		}
+	case *ast.SelectorExpr:
+		if s, ok := w.normSel(x.X); ok {
+			return s + "." + x.Sel.Name, true
+		}
+	case *ast.IndexExpr:
+		if s, ok := w.normSel(x.X); ok {
+			return s + "[]", true
+		}
+	case *ast.ParenExpr:
+		return w.normSel(x.X)
+	case *ast.StarExpr:
+		return w.normSel(x.X)
+	}
+	return "", false
 }
 
 // callee prints the callee of a call; a method call on a *local* variable keeps only the method
@@ -71,7 +96,10 @@ func (w *skelWalker) callee(fun ast.Expr) string {
 		}
 		break
 	}
-	if id, ok := root.(*ast.Ident); ok && (id.Name == "m" || w.params[id.Name] || w.imports[id.Name]) {
+	if id, ok := root.(*ast.Ident); ok && (id.Name == w.self || w.params[id.Name] || w.imports[id.Name]) {
+		if n, ok := w.normSel(fun); ok {
+			return n
+		}
 		return s
 	}
 	return "." + sel.Sel.Name
@@ -106,8 +134,13 @@ func (w *skelWalker) uses(nodes ...ast.Node) (uses, ops []string) {
 				}
 				return false
 			case *ast.SelectorExpr:
-				s := exprString(e)
-				if strings.HasPrefix(s, "m.") {
+				if s, ok := w.normSel(e); ok {
+					uses = append(uses, s)
+					return false
+				}
+				return true
+			case *ast.IndexExpr:
+				if s, ok := w.normSel(e); ok {
 					uses = append(uses, s)
 					return false
 				}
@@ -140,6 +173,22 @@ func (w *skelWalker) uses(nodes ...ast.Node) (uses, ops []string) {
 
 func (w *skelWalker) emit(s string) { w.toks = append(w.toks, s) }
 
+// reads emits a `get` pseudo-call for every receiver-rooted map READ (index expression) in e.
+func (w *skelWalker) reads(e ast.Node) {
+	ast.Inspect(e, func(x ast.Node) bool {
+		switch y := x.(type) {
+		case *ast.FuncLit:
+			return false
+		case *ast.IndexExpr:
+			if s, ok := w.normSel(y); ok {
+				w.emit(fmt.Sprintf(".call \"get\" %s", leanStrList([]string{s})))
+				return false
+			}
+		}
+		return true
+	})
+}
+
 // calls emits the significant calls (and nested function literals) of an expression or simple
 // statement, in source (evaluation) order.
 func (w *skelWalker) calls(n ast.Node) {
@@ -164,9 +213,20 @@ func (w *skelWalker) calls(n ast.Node) {
 			name := w.callee(e.Fun)
 			if name == "panic" {
 				w.emit(".panic")
+			} else if name == "delete" || name == "clear" {
+				// map builtins: the map operated on, when it belongs to the receiver
+				var args []string
+				if len(e.Args) > 0 {
+					if n, ok := w.normSel(e.Args[0]); ok {
+						args = append(args, n)
+					} else {
+						args = append(args, "_")
+					}
+				}
+				w.emit(fmt.Sprintf(".call %q %s", name, leanStrList(args)))
 			} else if significantCall(name) && significantCall(exprString(e.Fun)) {
 				var args []string
-				if strings.HasPrefix(name, "m.") && !strings.HasPrefix(name, "m.store.") && !strings.HasPrefix(name, "m.mu.") {
+				if w.self == "m" && strings.HasPrefix(name, "m.") && !strings.HasPrefix(name, "m.store.") && !strings.HasPrefix(name, "m.mu.") {
 					for _, a := range e.Args {
 						args = append(args, exprString(a))
 					}
@@ -177,6 +237,15 @@ func (w *skelWalker) calls(n ast.Node) {
 		}
 		return true
 	})
+}
+
+func (w *skelWalker) retVal(e ast.Expr) string {
+	if s, ok := w.normSel(e); ok {
+		if _, isIdx := e.(*ast.IndexExpr); isIdx {
+			return "v:" + s
+		}
+	}
+	return retVal(e)
 }
 
 func retVal(e ast.Expr) string {
@@ -252,7 +321,7 @@ func (w *skelWalker) stmt(s ast.Stmt) {
 		}
 		vals := make([]string, len(st.Results))
 		for i, r := range st.Results {
-			vals[i] = retVal(r)
+			vals[i] = w.retVal(r)
 		}
 		w.emit(fmt.Sprintf(".ret %s", leanStrList(vals)))
 	case *ast.BranchStmt:
@@ -265,10 +334,10 @@ func (w *skelWalker) stmt(s ast.Stmt) {
 	case *ast.AssignStmt:
 		for _, r := range st.Rhs {
 			w.calls(r)
+			w.reads(r)
 		}
 		for _, l := range st.Lhs {
-			ls := exprString(l)
-			if strings.HasPrefix(ls, "m.") {
+			if ls, ok := w.normSel(l); ok && ls != w.self {
 				w.emit(fmt.Sprintf(".set %q", ls))
 			}
 		}
@@ -374,6 +443,9 @@ func genChainSkel(repo string) ([]byte, error) {
 			continue
 		}
 		w := &skelWalker{params: map[string]bool{}, imports: map[string]bool{}}
+		if fd.Recv != nil && len(fd.Recv.List) == 1 && len(fd.Recv.List[0].Names) == 1 {
+			w.self = fd.Recv.List[0].Names[0].Name
+		}
 		for _, im := range f.Imports {
 			p := strings.Trim(im.Path.Value, "\"")
 			n := p[strings.LastIndex(p, "/")+1:]
@@ -421,5 +493,91 @@ func genChainSkel(repo string) ([]byte, error) {
 		fmt.Fprintf(&b, "  (%q, %s, %s)%s\n", fr.fn, leanStrList(fr.writes), leanStrList(fr.sets), sep)
 	}
 	b.WriteString("]\n\nend Verif.Extracted\n")
+	return []byte(b.String()), nil
+}
+
+
+// ---- chain/db.go: the key/value backends (C17) ----
+
+func init() {
+	generators = append(generators, generator{file: "DBSkel.lean", gen: genDBSkel})
+}
+
+var dbSkelFuncs = []string{"MemDB.Flush", "MemDB.Cancel", "MemDB.get", "MemDB.put", "MemDB.delete", "MemDB.Bucket", "MemDB.CreateBucket",
+	"cacheBucket.Get", "cacheBucket.Put", "cacheBucket.Delete", "cacheBucket.Iter",
+	"CacheDB.Bucket", "CacheDB.CreateBucket", "CacheDB.Flush", "CacheDB.Cancel"}
+
+func recvType(fd *ast.FuncDecl) string {
+	if fd.Recv == nil || len(fd.Recv.List) != 1 {
+		return ""
+	}
+	t := fd.Recv.List[0].Type
+	if st, ok := t.(*ast.StarExpr); ok {
+		t = st.X
+	}
+	if id, ok := t.(*ast.Ident); ok {
+		return id.Name
+	}
+	return ""
+}
+
+func genDBSkel(repo string) ([]byte, error) {
+	fset := token.NewFileSet()
+	f, err := parser.ParseFile(fset, filepath.Join(repo, "chain", "db.go"), nil, 0)
+	if err != nil {
+		return nil, err
+	}
+	skels := map[string][]string{}
+	for _, d := range f.Decls {
+		fd, ok := d.(*ast.FuncDecl)
+		if !ok || fd.Body == nil {
+			continue
+		}
+		name := fd.Name.Name
+		if rt := recvType(fd); rt != "" {
+			name = rt + "." + name
+		}
+		want := false
+		for _, s := range dbSkelFuncs {
+			if s == name {
+				want = true
+			}
+		}
+		if !want {
+			continue
+		}
+		w := &skelWalker{params: map[string]bool{}, imports: map[string]bool{}}
+		if fd.Recv != nil && len(fd.Recv.List[0].Names) == 1 {
+			w.self = fd.Recv.List[0].Names[0].Name
+		}
+		for _, im := range f.Imports {
+			p := strings.Trim(im.Path.Value, "\"")
+			n := p[strings.LastIndex(p, "/")+1:]
+			if im.Name != nil {
+				n = im.Name.Name
+			}
+			w.imports[n] = true
+		}
+		w.block(fd.Body)
+		skels[name] = w.toks
+	}
+	var b strings.Builder
+	b.WriteString("/- GENERATED by harness/srcfacts (chain.go) from /repo/chain/db.go on every run; do not edit.\n")
+	b.WriteString("   Data only: the control skeleton of MemDB, cacheBucket and CacheDB (receiver-rooted map\n")
+	b.WriteString("   expressions are printed with their index expressions elided). -/\n")
+	b.WriteString("import Verif.Lemmas.SkelTok\n\nnamespace Verif.Extracted\nopen Verif.Skel Verif.Skel.Tok\n\n")
+	for _, name := range dbSkelFuncs {
+		fmt.Fprintf(&b, "def skel_%s : List Tok := [\n", strings.Replace(name, ".", "_", 1))
+		toks := skels[name]
+		for i, t := range toks {
+			sep := ","
+			if i == len(toks)-1 {
+				sep = ""
+			}
+			fmt.Fprintf(&b, "  %s%s\n", strings.Replace(t, ".", "Tok.", 1), sep)
+		}
+		b.WriteString("]\n\n")
+	}
+	b.WriteString("end Verif.Extracted\n")
 	return []byte(b.String()), nil
 }
